@@ -570,6 +570,7 @@ type writeSet struct {
 	vars    map[types.Object]bool
 	regions map[string]bool // region name prefixes
 	all     bool            // unknown writes: havoc every materialised region
+	ghosts  map[string]bool // ghost variables updated by at-clauses of calls in the analysed code
 }
 
 func newWriteSet() *writeSet {
